@@ -4,6 +4,7 @@
 From Coq Require Import List ZArith.
 Import ListNotations.
 From Goag Require Import Base.Str Model.Params Spec.ParamSpec Proofs.ParamsProofs.
+From Goag Require Import Model.Serve Proofs.CanonProofs.
 
 (* the composed snippet (Primitive / Slice / Optional / Nullable / Ref
    ParseStrings) yields a value for the supplied texts iff they have a typed
@@ -52,3 +53,18 @@ Print Assumptions C04_no_invention.
 Theorem C04_only_named_errors : forall pf pt get ds, parse_all pf pt get ds <> ErrOther.
 Proof. exact parse_all_never_other. Qed.
 Print Assumptions C04_only_named_errors.
+
+(* Header parameters are looked up under http.CanonicalHeaderKey of the declared
+   name while net/http stores what it received under CanonicalHeaderKey of the
+   received name: canonicalising is idempotent, and two token names that differ
+   only by case have one canonical key — so a header parameter is found however
+   the sender spells its name, and a lookup by the canonical spelling is the
+   same lookup. *)
+Theorem C04_header_key_idempotent : forall s, canon_key (canon_key s) = canon_key s.
+Proof. exact canon_key_idem. Qed.
+Print Assumptions C04_header_key_idempotent.
+
+Theorem C04_header_case_insensitive : forall a b up,
+  map to_lower a = map to_lower b -> canon_go up a = canon_go up b.
+Proof. exact canon_go_case. Qed.
+Print Assumptions C04_header_case_insensitive.
